@@ -1371,6 +1371,15 @@ func loopEnum(args []string, w *bufio.Writer) {
 			"scheduled 1", "poll", "pending")
 		emit("obj 1 timer", "prog 12 "+act+" 1", "sched 1 once 1 op=11", "post op=12", "sleep 3", "poll", "pending", "scheduled 1", "poll", "pending")
 	}
+	// ... or cancels and re-arms the other timer: its event of this batch is stale and must not lose the new schedule
+	for _, re := range []string{"once 1", "once 3", "rep 1"} {
+		emit("obj 1 timer", "obj 2 timer", "prog 11 tcancel 2 ; sched 2 "+re+" op=+", "prog 12 tcancel 1 ; sched 1 "+re+" op=+", "sched 1 once 1 op=11", "sched 2 once 1 op=12",
+			"sleep 3", "poll", "pending", "scheduled 1", "scheduled 2", "sleep 5", "poll", "poll", "pending", "scheduled 1", "scheduled 2", "tcancel 1", "tcancel 2", "pending")
+		emit("obj 1 timer", "obj 2 tcp", "prog 12 tcancel 1 ; sched 1 "+re+" op=+", "sched 1 once 1 op=11", "read 2 4 op=12", "peer 2 write 4", "sleep 3", "poll", "pending",
+			"scheduled 1", "sleep 5", "poll", "poll", "pending", "scheduled 1", "tcancel 1", "pending")
+		emit("obj 1 timer", "prog 12 tcancel 1 ; sched 1 "+re+" op=+", "sched 1 once 1 op=11", "post op=12", "sleep 3", "poll", "pending", "scheduled 1", "sleep 5", "poll", "poll",
+			"pending", "scheduled 1", "tcancel 1", "pending")
+	}
 	for _, act := range []string{"close", "cancel"} {
 		for _, kind := range streamKinds {
 			emit("obj 1 "+kind, "obj 2 "+kind, "prog 11 "+act+" 2", "prog 12 "+act+" 1", "read 1 4 op=11", "read 2 4 op=12", "peer 1 write 4", "peer 2 write 4",
